@@ -827,7 +827,7 @@ func (env *Env) call(x ECall) TV {
 		}
 		return TV{T: App(x.Fn, SInt, v.T), Ty: intT}
 	case "fresh", "alive":
-		// fresh(x): allocated after function entry; alive(x): allocated at entry
+		// fresh(x): allocated now but not at function entry; alive(x): allocated at entry
 		v := env.comp(x.Args[0])
 		if v.T == nil {
 			cfail("%s of constant", x.Fn)
@@ -842,12 +842,12 @@ func (env *Env) call(x ECall) TV {
 		case SInt:
 			al = Select(oldH(alKey), v.T)
 			if x.Fn == "fresh" {
-				return TV{T: And(Not(Eq(v.T, IntLit(0))), Not(al)), Ty: boolT}
+				return TV{T: And(Not(Eq(v.T, IntLit(0))), Not(al), Select(env.heap(alKey), v.T)), Ty: boolT}
 			}
 		case SSlice:
 			al = Select(oldH(alAKey), SlArr(v.T))
 			if x.Fn == "fresh" {
-				return TV{T: And(Not(Eq(SlArr(v.T), IntLit(0))), Not(al)), Ty: boolT}
+				return TV{T: And(Not(Eq(SlArr(v.T), IntLit(0))), Not(al), Select(env.heap(alAKey), SlArr(v.T))), Ty: boolT}
 			}
 		default:
 			cfail("%s on sort %s", x.Fn, v.T.Sort)
